@@ -8,6 +8,10 @@ use std::io::ErrorKind;
 
 const INITIAL_RESPONSE_HEADERS_BUFFER_SIZE: usize = 32;
 const MAX_RESPONSE_HEADERS_NUM: usize = 128;
+/// The most a peer's response head (status line and headers) may take
+const MAX_RESPONSE_HEADERS_SIZE: usize = 64 * 1024;
+/// The most a chunk size line (size, extensions and line break) of a peer's chunked body may take
+const MAX_CHUNK_SIZE_LINE_LENGTH: usize = 4 * 1024;
 const ENCODED_CHUNK_SUFFIX: &str = "\r\n";
 
 /// Wrap the `stream` with a non-CONNECT request into a wrapper which forwards the request
@@ -415,13 +419,21 @@ impl ForwardedStreamSink {
         };
 
         let (chunk_size, tail) = match httparse::parse_chunk_size(&data) {
-            Ok(httparse::Status::Complete((pos, chunk_size))) => {
+            Ok(httparse::Status::Complete((pos, chunk_size)))
+                if pos <= MAX_CHUNK_SIZE_LINE_LENGTH =>
+            {
                 log_id!(trace, self.id, "Encoded chunk size: {} bytes", chunk_size);
                 (chunk_size, data.split_off(pos))
             }
-            Ok(httparse::Status::Partial) => {
+            Ok(httparse::Status::Partial) if data.len() < MAX_CHUNK_SIZE_LINE_LENGTH => {
                 state.buffer = BytesMut::from(data.as_ref());
                 return Ok(Bytes::new());
+            }
+            Ok(_) => {
+                return Err(io::Error::new(
+                    ErrorKind::Other,
+                    "Too long encoded chunk size line",
+                ))
             }
             Err(httparse::InvalidChunkSize) => {
                 return Err(io::Error::new(
@@ -557,13 +569,19 @@ impl SinkWaitingResponse {
         loop {
             let mut response = httparse::Response::new(parse_headers_buffer.as_mut());
             match response.parse(data.as_ref()) {
-                Ok(httparse::Status::Complete(pos)) => {
+                Ok(httparse::Status::Complete(pos)) if pos <= MAX_RESPONSE_HEADERS_SIZE => {
                     log_id!(trace, log_id, "Received response: {:?}", response);
                     return Ok((Some(self.convert_response(response)?), data.split_off(pos)));
                 }
-                Ok(httparse::Status::Partial) => {
+                Ok(httparse::Status::Partial) if data.len() < MAX_RESPONSE_HEADERS_SIZE => {
                     self.headers_buffer = BytesMut::from(data.as_ref());
                     return Ok((None, Bytes::new()));
+                }
+                Ok(_) => {
+                    return Err(io::Error::new(
+                        ErrorKind::Other,
+                        "Too long HTTP response headers",
+                    ))
                 }
                 Err(httparse::Error::TooManyHeaders)
                     if parse_headers_buffer.len() < MAX_RESPONSE_HEADERS_NUM =>
